@@ -15,7 +15,7 @@ MODULES = ["RuschmProofs.C04"]
 def is_var(x, lits):
     """an identifier that is not a literal, `_` or `...` is a pattern variable"""
     return (isinstance(x, str) and x not in lits and x not in ("_", "...") and x not in ("#t", "#f")
-            and not re.fullmatch(r"-?\d+", x) and not x.startswith('"'))
+            and not re.fullmatch(r"-?\d+(/\d+|\.\d+)?", x) and not x.startswith('"'))
 
 
 
@@ -34,6 +34,10 @@ def canon(x):
         return x
     if re.fullmatch(r"-?\d+", x):
         return "i:" + x
+    if re.fullmatch(r"-?\d+/\d+", x):
+        return "q:" + x
+    if re.fullmatch(r"-?\d+\.\d+", x):
+        return "R:" + x
     if x.startswith('"'):
         return 's:"%s"' % x[1:-1]
     return "y:" + x
